@@ -31,6 +31,15 @@ def pytest_configure(config):
     simmod.PysimSimulator.__init__ = patched
 
 
+def pytest_collection_modifyitems(config, items):
+    part = os.environ.get("VF_SUITE_PART")  # "i/n": keep every n-th collected test, starting at i (large files are split over several shards)
+    if part:
+        i, n = (int(x) for x in part.split("/"))
+        keep = [it for k, it in enumerate(items) if k % n == i]
+        config.hook.pytest_deselected(items=[it for k, it in enumerate(items) if k % n != i])
+        items[:] = keep
+
+
 def pytest_runtest_setup(item):
     CURRENT["test"] = item.nodeid
     REC.count("suite_tests_started")
